@@ -16,6 +16,7 @@ import (
 	"log/slog"
 	"math"
 	"math/big"
+	"os"
 	"runtime"
 	"strconv"
 	"strings"
@@ -29,6 +30,7 @@ import (
 	"example.com/scion-time/core/client"
 	"example.com/scion-time/core/measurements"
 	"example.com/scion-time/core/sync"
+	"example.com/scion-time/driver/clocks"
 
 	"verifharness/lib"
 )
@@ -227,6 +229,9 @@ type recAdj struct{ w *world }
 
 func (a *recAdj) Do(offset time.Duration) {
 	a.w.corrs = append(a.w.corrs, int64(offset))
+	if streamDo {
+		fmt.Printf("do %d\n", int64(offset)) // isolated run (guard.go): survives the process
+	}
 	if time.Since(a.w.roundT0) > time.Duration(a.w.s.timeout) {
 		a.w.doLate = true
 	}
@@ -288,7 +293,16 @@ func runSync(s *spec) (w *world, panicked any) {
 	return w, panicked
 }
 
+// exec answers one op line; under -replay every sync.run is run in a process of its own
+// (guard.go), so that a run that kills its process is answered `died …` instead.
 func exec(t []string) string {
+	if isolateAll && len(t) > 0 && t[0] == "sync.run" {
+		return isolated(strings.Join(t, " "))
+	}
+	return execInProcess(t)
+}
+
+func execInProcess(t []string) string {
 	switch {
 	case t[0] == "sync.run":
 		s := parseSpec(t[1:])
@@ -306,6 +320,11 @@ func exec(t []string) string {
 		return fmt.Sprintf("ok %d", timemath.Sgn(time.Duration(i64(t[1]))))
 	case t[0] == "dur.abs" && len(t) == 2:
 		return fmt.Sprintf("ok %d", int64(time.Duration(i64(t[1])).Abs()))
+	case t[0] == "clk.drift" && len(t) == 3:
+		// the clock timeservice.go builds for Run (clocks.NewSystemClock(log, clockDrift(cfg))) and the
+		// one reading Run takes from it: clk.Drift(cfg.SyncInterval)
+		clk := clocks.NewSystemClock(quietLog, time.Duration(i64(t[1])))
+		return fmt.Sprintf("ok %d", int64(clk.Drift(time.Duration(i64(t[2])))))
 	case t[0] == "ftm" && len(t) == 2:
 		if len(t[1]) < 2 || t[1][0] != '[' || t[1][len(t[1])-1] != ']' {
 			return "bad-op"
@@ -566,8 +585,14 @@ func checkConsensusRounds(c *lib.Ctx, s *spec, w *world, op string) {
 }
 
 // do runs one generated spec through the correspondence and the oracle.
-func do(c *lib.Ctx, s *spec) {
+func do(c *lib.Ctx, s *spec) *world {
 	op := s.op()
+	if ans, handled := guarded(c, op); handled {
+		if ans != "" {
+			c.Emit(op, ans)
+		}
+		return nil
+	}
 	var w *world
 	var p any
 	res := lib.Try(func() string {
@@ -581,12 +606,19 @@ func do(c *lib.Ctx, s *spec) {
 	if w != nil {
 		checkRun(c, s, w, p, op)
 	}
+	if p != nil {
+		return nil
+	}
+	return w
 }
 
 // oracleOnly runs a spec whose outcome is a scheduler race in the real code (delay = timeout,
 // timeout = 0): no correspondence line, only the direct oracle.
 func oracleOnly(c *lib.Ctx, s *spec) {
 	op := s.op()
+	if _, handled := guarded(c, op); handled {
+		return
+	}
 	var w *world
 	var p any
 	lib.Try(func() string { w, p = runSync(s); return "" })
@@ -925,6 +957,67 @@ func gen(c *lib.Ctx) {
 		c.Dof("ftm %s", lib.IntList(xs))
 	}
 
+
+	// ---- the drift chain: clock_drift (ns per second, after clockDrift(cfg)) -> NewSystemClock ->
+	// Drift(SyncInterval) = the factor of both caps. Oracle (math/big, C01Cfg_runDrift_*): absent
+	// drift gives MaxInt64; a configured drift of 1 ns/s .. 0.4 s/s whose exact allowance
+	// d*iv/1e9 is at least 2 ns gives a positive value within 1 ns + 2^-50 of it.
+	c.Comment("drift chain")
+	dr := r.Fork("drift")
+	dvals := []int64{0, 1, 2, 3, 14, 15, 16, 29, 30, 1000, 10_000, 1_000_000, 399_999_999, 400_000_000, 500_000_000, 999_999_999, 1_000_000_000, 1_000_000_001, math.MaxInt64, -1, -10_000, math.MinInt64}
+	ivals := []int64{1, 2, 499_999_999, 500_000_000, 999_999_999, 1_000_000_000, 1_000_000_001, 2_000_000_000, 64_000_000_000, 3_600_000_000_000, math.MaxInt64, 0, -1, -1_000_000_000, math.MinInt64}
+	driftOp := func(d, iv int64) {
+		ans := c.Dof("clk.drift %d %d", d, iv)
+		xs, ok := lib.Ints(ans)
+		if !ok || len(xs) != 1 {
+			return
+		}
+		got := xs[0]
+		if d == 0 {
+			c.Count("drift:unknown")
+			if got != math.MaxInt64 {
+				c.Fail("C01:drift-unknown", "an absent clock_drift must give the maximal allowance", []string{fmt.Sprintf("clk.drift %d %d", d, iv)}, map[string]any{"got": got})
+			}
+			return
+		}
+		if d < 1 || d > 400_000_000 || iv <= 0 {
+			c.Count("drift:outside-oracle-range")
+			return
+		}
+		exact := new(big.Rat).SetFrac(new(big.Int).Mul(big.NewInt(d), big.NewInt(iv)), big.NewInt(1_000_000_000))
+		if exact.Cmp(big.NewRat(2, 1)) < 0 {
+			c.Count("drift:allowance<2ns")
+			return
+		}
+		c.Count("drift:checked")
+		diff := new(big.Rat).Sub(new(big.Rat).SetInt64(got), exact)
+		diff.Abs(diff)
+		lim := new(big.Rat).Add(big.NewRat(1, 1), new(big.Rat).Quo(exact, new(big.Rat).SetInt(new(big.Int).Lsh(big.NewInt(1), 50))))
+		if got <= 0 || diff.Cmp(lim) > 0 {
+			c.Fail("C01:drift-allowance", "Drift(interval) of the configured clock is not positive / not within 1 ns + 2^-50 of drift x interval",
+				[]string{fmt.Sprintf("clk.drift %d %d", d, iv)}, map[string]any{"got": got, "exact": exact.FloatString(3)})
+		}
+	}
+	for _, d := range dvals {
+		for _, iv := range ivals {
+			driftOp(d, iv)
+		}
+	}
+	for i := 0; i < c.Scale(1500, 30000); i++ {
+		d := dr.Range(1, 400_000_000)
+		if dr.Chance(50) {
+			d = dr.Range(1, 200_000)
+		}
+		iv := dr.Range(1, 100_000_000_000)
+		switch dr.Intn(4) {
+		case 0:
+			iv = 1_000_000_000
+		case 1:
+			iv = dr.Range(1, 20) * 500_000_000
+		}
+		driftOp(d, iv)
+	}
+
 	// ---- start-up: both sides of every admissibility comparison, NaN/Inf factors
 	c.Comment("start-up")
 	sr := r.Fork("startup")
@@ -1101,6 +1194,71 @@ func gen(c *lib.Ctx) {
 		do(c, s)
 	}
 
+
+	// ---- stale entries of the reused result slices (Props/C01.lean, "Stale entries"): pairs of
+	// histories that end in the same round but differ before. A source that fails in the last
+	// round keeps voting with what an earlier round left in its slot, so the last corrections may
+	// differ (counted) — the generic oracle bounds both. When EVERY source answers in time in the
+	// last round nothing of the earlier rounds is left: the last corrections must be equal
+	// (`C01:stale-leak`, a metamorphic oracle that needs no model).
+	c.Comment("stale pairs")
+	const dfl = "3ff4000000000000 4004000000000000 50000 500000000 1000000000 10000 2 0 "
+	for _, h := range []struct {
+		rounds string
+		want   []int64
+	}{{"o0,o0/- o4000,e/-", []int64{0, 2000}}, {"o12000,o12000/- o4000,e/-", []int64{12000, 8000}}} {
+		s := parseSpec(strings.Fields(dfl + h.rounds))
+		if w := do(c, s); w != nil && lib.IntList(w.corrs) != lib.IntList(h.want) {
+			c.Fail("C01:stale-corpus", "the decided two-round history of C01_stale_entry_changes_correction gives other corrections",
+				[]string{s.op()}, map[string]any{"got": w.corrs, "want": h.want})
+		}
+		c.Count("stale:corpus")
+	}
+	sp := r.Fork("stale")
+	for i := 0; i < c.Scale(150, 3000); i++ {
+		a := validCfg(sp)
+		a.nref, a.npeer = int(sp.Range(0, 5)), int(sp.Range(0, 5))
+		if a.nref == 0 && a.npeer == 0 {
+			a.nref = 1
+		}
+		b := *a
+		genRounds(c, sp, a, int(sp.Range(1, 5)))
+		b.rounds = nil
+		genRounds(c, sp, &b, int(sp.Range(1, 5)))
+		all := sp.Chance(60)
+		last := *a
+		last.rounds = nil
+		genRounds(c, sp, &last, 1)
+		rd := last.rounds[0]
+		if all {
+			pool := offsetPool(a)
+			mp := f2i(a.pi * float64(a.drift))
+			for side := 0; side < 2; side++ {
+				for j := range rd[side] {
+					rd[side][j] = act{kind: 'o', off: genOffset(sp, pool, mp), delay: inTimeDelay(sp, a)}
+				}
+			}
+		}
+		a.rounds = append(a.rounds, rd)
+		b.rounds = append(b.rounds, rd)
+		wa, wb := do(c, a), do(c, &b)
+		if wa == nil || wb == nil || len(wa.corrs) != len(a.rounds) || len(wb.corrs) != len(b.rounds) {
+			continue
+		}
+		la, lb := wa.corrs[len(wa.corrs)-1], wb.corrs[len(wb.corrs)-1]
+		switch {
+		case all && la != lb:
+			c.Fail("C01:stale-leak", "every source answered in time in the last round, yet the correction depends on earlier rounds",
+				[]string{a.op(), b.op()}, map[string]any{"corr_a": la, "corr_b": lb})
+		case all:
+			c.Count("stale:all-answer:last-corrections-equal")
+		case la != lb:
+			c.Count("stale:failing-sources:earlier-rounds-changed-the-correction")
+		default:
+			c.Count("stale:failing-sources:same-correction")
+		}
+	}
+
 	// ---- scheduler races of the real code (delay = timeout; timeout = 0): direct oracle only
 	rr := r.Fork("race")
 	for i := 0; i < c.Scale(60, 1000); i++ {
@@ -1132,4 +1290,22 @@ func gen(c *lib.Ctx) {
 	}
 }
 
-func main() { lib.Main(exec, gen) }
+func main() {
+	if op := os.Getenv(envOne); op != "" {
+		runOne(op)
+		return
+	}
+	for _, a := range os.Args[1:] {
+		if a == "-replay" || a == "--replay" || strings.HasPrefix(a, "-replay=") || strings.HasPrefix(a, "--replay=") {
+			isolateAll = true
+		}
+	}
+	if !isolateAll {
+		if os.Getenv(envSupervised) == "" {
+			supervise() // guard.go: the generator runs in a child, restarted after a process death
+			return
+		}
+		childSetup()
+	}
+	lib.Main(exec, gen)
+}
